@@ -22,6 +22,7 @@ import (
 	"errors"
 	"fmt"
 	"io"
+	"io/ioutil"
 	"net"
 	"net/http"
 	"net/url"
@@ -176,8 +177,14 @@ func (h Handler) ServeHTTP(w http.ResponseWriter, r *http.Request) (int, error) 
 			// Write response header
 			writeHeader(w, resp)
 
-			// Write the response body
-			_, err = io.Copy(w, resp.Body)
+			// Write the response body. A body sent in reply to HEAD must be
+			// discarded (RFC 3875 4.3.3); it is still read to the end so that
+			// stderr is collected.
+			if r.Method == "HEAD" {
+				_, err = io.Copy(ioutil.Discard, resp.Body)
+			} else {
+				_, err = io.Copy(w, resp.Body)
+			}
 			if err != nil {
 				return http.StatusBadGateway, err
 			}
